@@ -514,10 +514,15 @@ class Proj:
     hdr[id] = {'name', 'v', 'inc': [ids]}   (a header includes only headers with a larger id -> acyclic)
     src[i]  = {'k', 'inc': [ids]}"""
 
-    def __init__(self, rng, rep, special=True, nsrc=None, nhdr=None, pch=False, mixed=False):
+    def __init__(self, rng, rep, special=True, nsrc=None, nhdr=None, pch=False, mixed=False, genhdr=False):
         self.rng, self.rep = rng, rep
         self.special = special
         self.mixed = mixed       # sources in C and in C++ (one program): two compile rules, two compilers
+        # a header FILE that a step of the project generates (from <name>.in of the source tree, into a sub-directory of
+        # the build directory) and that reaches the compile steps through includes= of executable(): {'v', 'dir', 'name'};
+        # src[i]['gen'] says whether source i includes it. (A stream of its own: the other draws stay what they were.)
+        self.gen = None
+        self.grng = random.Random('genhdr:%r' % (rng.getstate()[1][:6],)) if genhdr else None
         self.hdr, self.src = {}, {}
         self.pch = None          # {'inc': [ids]}: a precompiled header pch.h, force-included into every source
         self.only = {}           # 'c' / 'cxx' / 'ord' -> id of a header that (at first) only sources of that kind include
@@ -553,6 +558,13 @@ class Proj:
             self.pch = {'inc': [only] + rng.sample([h for h in self.hdr if h != only], rng.randint(0, 1))}
             # and one that only an ordinary source includes (not the precompiled header)
             self.only['ord'] = self.exclusive_header([rng.choice(sorted(self.src))])
+        if genhdr:
+            g = self.grng
+            self.gen = {'v': g.randint(1, 99), 'dir': g.choice(['hgen', 'hgen/deep', 'h gen', 'hg#n'] if special else ['hgen']),
+                        'name': g.choice(['gv.h', 'g v.h', 'gv$x.h'] if special else ['gv.h'])}
+            users = g.sample(sorted(self.src), g.randint(1, len(self.src)))
+            for i in users:
+                self.src[i]['gen'] = True
 
     def exclusive_header(self, srcs):
         """a new header that includes nothing and is included by exactly the given sources"""
@@ -624,15 +636,26 @@ class Proj:
     def pch_files(self):
         return ({'pch.h'} | {self.hdr[h]['name'] for h in self.hclosure(self.pch['inc'])}) if self.pch else set()
 
+    def gen_input(self):
+        return self.gen['name'] + '.in'
+
+    def gen_output(self):
+        return self.gen['dir'] + '/' + self.gen['name']
+
+    def uses_gen(self, s):
+        return bool(self.gen and self.src[s].get('gen'))
+
     def closure_files(self, s):
-        return {self.sname(s)} | {self.hdr[h]['name'] for h in self.hclosure(self.src[s]['inc'])} | self.pch_files()
+        return {self.sname(s)} | {self.hdr[h]['name'] for h in self.hclosure(self.src[s]['inc'])} | self.pch_files() | \
+            ({self.gen_input()} if self.uses_gen(s) else set())
 
     def hval(self, h):
         return self.hdr[h]['v'] + sum(self.hval(c) for c in self.hdr[h]['inc'])
 
     def expected_output(self):
         return sum(s['k'] + sum(self.hval(h) for h in s['inc']) for s in self.src.values()) + \
-            (sum(self.hval(h) for h in self.pch['inc']) if self.pch else 0)
+            (sum(self.hval(h) for h in self.pch['inc']) if self.pch else 0) + \
+            (self.gen['v'] * sum(1 for i in self.src if self.uses_gen(i)) if self.gen else 0)
 
     # -- text
     def render(self):
@@ -646,20 +669,28 @@ class Proj:
         for i, s in self.src.items():
             up = '../' * len([x for x in s.get('dir', '').split('/') if x])
             t = ''.join('#include "%s%s"\n' % (up, self.hdr[c]['name']) for c in s['inc'])
+            if self.uses_gen(i):
+                t += '#include "%s"\n' % self.gen['name']          # found through the include directory of the generated header
             cl = '#ifdef __cplusplus\nextern "C"\n#endif\n' if self.mixed else ''
-            t += cl + 'int f%d(void) { return %d%s; }\n' % (i, s['k'], ''.join(' + V%d' % c for c in s['inc']))
+            t += cl + 'int f%d(void) { return %d%s%s; }\n' % (i, s['k'], ''.join(' + V%d' % c for c in s['inc']),
+                                                              ' + VGEN' if self.uses_gen(i) else '')
             if i == first:
                 t += '#include <stdio.h>\n' + ''.join(cl + 'int f%d(void);\n' % j for j in self.src if j != i)
                 t += 'int main(void) { printf("%%d\\n", 0%s%s); return 0; }\n' % (
                     ''.join(' + f%d()' % j for j in self.src), ' + VPCH' if self.pch else '')
             out[self.sname(i)] = t
+        pre, kw = '', ''
+        if self.gen:
+            out[self.gen_input()] = '#define VGEN (%d)\n' % self.gen['v']
+            pre += "ghdr = build_step(%r, cmd=['cp', source_file(%r), %r], type=header_file)\n" % (
+                self.gen_output(), self.gen_input(), self.gen_output())
+            kw += ', includes=[ghdr]'
         if self.pch:
             out['pch.h'] = ''.join('#include "%s"\n' % self.hdr[c]['name'] for c in self.pch['inc']) + \
                 '#define VPCH (0%s)\n' % ''.join(' + V%d' % c for c in self.pch['inc'])
-            out['build.bfg'] = "pch = precompiled_header(file='pch.h')\nexecutable('prog', files=[%s], pch=pch)\n" % \
-                ', '.join(repr(self.sname(i)) for i in sorted(self.src))
-        else:
-            out['build.bfg'] = "executable('prog', files=[%s])\n" % ', '.join(repr(self.sname(i)) for i in sorted(self.src))
+            pre += "pch = precompiled_header(file='pch.h')\n"
+            kw += ', pch=pch'
+        out['build.bfg'] = pre + "executable('prog', files=[%s]%s)\n" % (', '.join(repr(self.sname(i)) for i in sorted(self.src)), kw)
         return out
 
     # -- edits; each returns a description
@@ -682,6 +713,8 @@ class Proj:
         rng = self.rng
         kinds = ['mod_hdr', 'mod_hdr', 'mod_src', 'touch_hdr', 'add_hdr', 'del_hdr', 'ren_hdr', 'add_inc', 'del_inc',
                  'add_src', 'del_src', 'ren_src']
+        if self.gen and self.grng.random() < 0.3:
+            return self.edit_gen()
         for _ in range(20):
             k = rng.choice(kinds)
             hs, ss = list(self.hdr), list(self.src)
@@ -745,6 +778,20 @@ class Proj:
                 return [k, old, self.sname(n)]
         return ['none']
 
+    def edit_gen(self):
+        """an edit that concerns the generated header: the input of its generator is modified or only touched, a source starts or
+        stops including it"""
+        g = self.grng
+        k = g.choice(['mod_gen', 'mod_gen', 'touch_gen', 'toggle_gen'])
+        if k == 'mod_gen':
+            self.gen['v'] += g.randint(1, 5)
+            return [k, self.gen_input()]
+        if k == 'touch_gen':
+            return ['touch_hdr', self.gen_input()]
+        s = g.choice(sorted(self.src))
+        self.src[s]['gen'] = not self.src[s].get('gen')
+        return [k, self.sname(s)]
+
 
 class Clock:
     """Strictly increasing file times that stay behind the file system's own clock."""
@@ -789,7 +836,9 @@ class Clock:
 
 WRAPPER = '''#!/bin/sh
 # logs every compiler invocation (arguments separated by the unit separator), then runs the real compiler
-( for a in "$@"; do printf '%%s\\037' "$a"; done; printf '\\n' ) >> '%(log)s'
+# (one write per invocation: parallel builds append whole lines)
+l=$(for a in "$@"; do printf '%%s\\037' "$a"; done)
+printf '%%s\\n' "$l" >> '%(log)s'
 exec %(cc)s "$@"
 '''
 
@@ -905,7 +954,10 @@ def run_history(rep, seed, idx, cc, nedits, risky=None):
         run_ = SysRun(root, cc)
         if risky is None:
             # half of the histories use a precompiled header (both compilers), a quarter mixes C and C++ sources
-            proj = Proj(rng, rep, pch=(idx % 4 in (1, 2)), mixed=(idx % 4 == 0))
+            # two of three hand a header FILE generated by a step of the project to executable() through includes=
+            proj = Proj(rng, rep, pch=(idx % 4 in (1, 2)), mixed=(idx % 4 == 0), genhdr=(idx % 3 != 1))
+            if proj.gen:
+                rep.count('sys:history with a generated header file in includes= of executable()')
             if proj.pch:
                 rep.count('sys:history with precompiled header')
             if proj.mixed:
@@ -920,6 +972,12 @@ def run_history(rep, seed, idx, cc, nedits, risky=None):
         # next to a precompiled header) stops being included and is deleted
         # ... and before that, a header that only the object of a source in an oddly named directory includes is modified
         scheduled = [(k, proj.only[k]) for k in ('dir', 'cxx', 'c', 'ord') if k in proj.only] if risky is None else []
+        if proj.gen:
+            # ... and first of all the input of the generator of the generated header is modified: every object that includes
+            # the generated header is made again
+            scheduled.insert(0, ('gen', None))
+        # histories with a generated header start from scratch with a parallel build
+        jobs = ('-j4',) if proj.gen else ()
         allnames = set(h['name'] for h in proj.hdr.values())
         run_.sync(proj)
         p = run_.configure()
@@ -928,17 +986,20 @@ def run_history(rep, seed, idx, cc, nedits, risky=None):
                      'classes': (), 'trace': []}]
         listed = {}
 
-        def check_build(step, dirty, expect_all=False):
+        def check_build(step, dirty, expect_all=False, margs=(), already=()):
             cur = {proj.sname(s): proj.closure_files(s) for s in proj.src}
             if proj.pch:
                 cur['pch.h'] = proj.pch_files()          # the precompiled header is a compile step of its own
-            predicted = {s for s in cur if expect_all or s not in listed or (listed[s] & dirty)}
-            p, compiled, _ = run_.make()
+            predicted = {s for s in cur if expect_all or s not in listed or (listed[s] & dirty)} - set(already)
+            p, compiled, _ = run_.make(*margs)
             ok = True
             if p.returncode != 0:
                 fails.append({'step': step, 'what': 'make failed', 'detail': p.stderr[-600:]})
                 return False
-            if compiled != predicted:
+            # includes=[generated header] of executable() DECLARES the header a prerequisite of every object of the program:
+            # when the generator's input changed, the objects that do not #include the header may be made again as well
+            declared = {proj.sname(s) for s in proj.src} if proj.gen and proj.gen_input() in dirty else set()
+            if not (predicted <= compiled <= predicted | declared):
                 fails.append({'step': step, 'what': 'recompiled set differs from the include-graph prediction',
                               'compiled': sorted(compiled), 'predicted': sorted(predicted), 'dirty': sorted(dirty)})
                 ok = False
@@ -961,7 +1022,7 @@ def run_history(rep, seed, idx, cc, nedits, risky=None):
             rep.case('sys:%s:%d:%s' % (seed, idx, step), True)
             return ok
 
-        for e in range(nedits if check_build('initial', set()) else 0):
+        for e in range(nedits if check_build('initial', set(), margs=jobs) else 0):
             if risky is None and proj.pch and e == 0 and proj.pch['inc'] and proj.pch['inc'][0] in proj.hdr:
                 # first a change of the header that is reachable only through the precompiled header
                 h0 = proj.pch['inc'][0]
@@ -969,7 +1030,10 @@ def run_history(rep, seed, idx, cc, nedits, risky=None):
                 ed = ['mod_hdr', proj.hdr[h0]['name']]
             elif risky is None and scheduled:
                 k0, h0 = scheduled.pop(0)
-                if h0 not in proj.hdr:
+                if k0 == 'gen':
+                    proj.gen['v'] += rng.randint(1, 5)
+                    ed = ['mod_gen', proj.gen_input()]
+                elif h0 not in proj.hdr:
                     ed = proj.edit()
                 elif k0 == 'dir':
                     proj.hdr[h0]['v'] += rng.randint(1, 5)
@@ -1004,15 +1068,41 @@ def run_history(rep, seed, idx, cc, nedits, risky=None):
             check_build('last edit %r' % (ed,), run_.sync(proj))
         if not fails:
             # clean removes every product (objects, depfiles, program); the next build recreates all of them
+            objs = {}        # source -> path of its object below the build directory, as the first builds left them
+            for r, _, fs in os.walk(run_.bld):
+                for f in fs:
+                    for i in proj.src:
+                        if f == 's%d.o' % i:
+                            objs[i] = os.path.relpath(os.path.join(r, f), run_.bld)
             p, _, _ = run_.make('clean')
             mine = {'prog'} | {'s%d.c.o' % i for i in proj.src} | {'s%d.o' % i for i in proj.src} | \
-                   {'s%d.o.d' % i for i in proj.src} | ({'pch.h.gch', 'pch.h.gch.d'} if proj.pch else set())        # products of the CURRENT sources (a renamed source's old object is not one)
+                   {'s%d.o.d' % i for i in proj.src} | ({'pch.h.gch', 'pch.h.gch.d'} if proj.pch else set()) | \
+                   ({proj.gen['name']} if proj.gen else set())        # products of the CURRENT sources (a renamed source's old object is not one)
             left = [f for r, _, fs in os.walk(run_.bld) for f in fs if f in mine]
             if p.returncode != 0 or left:
                 fails.append({'step': 'clean', 'what': 'clean failed or left products behind', 'left': left,
                               'detail': p.stderr[-300:]})
-            else:
+            elif not proj.gen:
                 check_build('rebuild after clean', set(), expect_all=True)
+            elif check_build('rebuild after clean, goal: the program', set(), expect_all=True, margs=('prog',)):
+                # clean once more, then ask for ONE object only (parallel): whatever the object needs - a generated header, the
+                # precompiled header - is made first; the build of everything else follows
+                users = [i for i in sorted(objs) if proj.uses_gen(i)] or sorted(objs)
+                plain = [i for i in users if not proj.src[i].get('dir')] or users
+                p, _, _ = run_.make('clean')
+                if p.returncode == 0 and plain:
+                    one = plain[0]
+                    p, compiled, _ = run_.make('-j4', objs[one])
+                    want = {proj.sname(one)} | ({'pch.h'} if proj.pch else set())
+                    rep.case('sys:%s:%d:object goal' % (seed, idx), True)
+                    rep.count('sys:clean, then ONE object as the goal of a parallel make')
+                    if p.returncode != 0:
+                        fails.append({'step': 'object goal %r after clean' % objs[one], 'what': 'make failed', 'detail': p.stderr[-600:]})
+                    elif compiled != want:
+                        fails.append({'step': 'object goal %r after clean' % objs[one], 'what': 'recompiled set differs from the goal',
+                                      'compiled': sorted(compiled), 'predicted': sorted(want)})
+                    else:
+                        check_build('rebuild after the object goal', set(), expect_all=True, margs=jobs, already=want)
         for f in fails:
             f['classes'] = sys_classes(risky, risky_name, run_.src, f)
             f['trace'] = trace
